@@ -200,6 +200,36 @@ where
     }
 }
 
+/// a cheap variant for enums whose traversal is quadratic (thousands of runs in next_and_back mode):
+/// every operation is exercised once, the full content is compared forwards and backwards
+pub fn check_iterator_light<T0, T, I>(prop: &str, what: &str, mk: &dyn Fn() -> I, proj: &dyn Fn(T0) -> T, oracle: &[T], out: &mut Out)
+where
+    T: Copy + PartialEq + Debug,
+    I: Iterator<Item = T0> + DoubleEndedIterator + ExactSizeIterator + FusedIterator,
+{
+    out.evals += 3;
+    let fwd: Vec<T> = mk().map(proj).collect();
+    if fwd != oracle { out.fail(prop, "collect", format!("{} differs from the oracle (len {} vs {})", what, fwd.len(), oracle.len())); return; }
+    let mut bwd: Vec<T> = mk().rev().map(proj).collect();
+    bwd.reverse();
+    if bwd != oracle { out.fail(prop, "rev", format!("{} reversed differs from the oracle", what)); return; }
+    let n = oracle.len();
+    let mut it = mk();
+    let mut model: VecDeque<T> = oracle.iter().copied().collect();
+    let steps: [Op; 8] = [Op::Len, Op::Next, Op::NextBack, Op::Nth(1), Op::NthBack(1), Op::SizeHint, Op::Nth(n), Op::Next];
+    for (i, op) in steps.iter().enumerate() {
+        let ok = match *op {
+            Op::Next => it.next().map(proj) == model.pop_front(),
+            Op::NextBack => it.next_back().map(proj) == model.pop_back(),
+            Op::Nth(k) => { let g = it.nth(k).map(proj); for _ in 0..k.min(model.len()) { model.pop_front(); } g == model.pop_front() }
+            Op::NthBack(k) => { let g = it.nth_back(k).map(proj); for _ in 0..k.min(model.len()) { model.pop_back(); } g == model.pop_back() }
+            Op::Len => it.len() == model.len(),
+            Op::SizeHint => it.size_hint() == (model.len(), Some(model.len())),
+        };
+        if !ok { out.fail(prop, "history", format!("{} step {} {:?} disagrees with the model", what, i, op)); return; }
+    }
+}
+
 /// strings to probe from_str with: every name, the single-edit neighbours of every name, case
 /// variants, surrounding whitespace, the empty string and the identifiers of renamed variants
 pub fn probe_strings(names: &[&str], idents: &[&str], limit: usize) -> Vec<String> {
